@@ -8,16 +8,20 @@ LEVEL = "proof"
 HARNESSES = [{"name": "main", "src": "harness.cpp", "flags": ["-O1", "-DTETL_ENABLE_CONTRACT_CHECKS=1"]}]
 
 RULE = ("a case = one history on one configuration (static_set / flat_set over static_vector / flat_set over an "
-        "inplace_vector adaptor; comparators less, greater, transparent less<> with heterogeneous point and band keys, "
-        "half (equivalence coarser than equality); capacity 1, 3, 4, 8), keys 0..5. Exhaustive part: from every set "
+        "inplace_vector adaptor, element int; static_set / flat_set over static_vector with a tracked non-trivial "
+        "element type that counts live objects and flags uses of moved-from or destroyed values; comparators less, "
+        "greater, transparent less<> with heterogeneous point and band keys, half (equivalence coarser than equality); "
+        "capacity 1, 2, 3, 4, 5, 8), keys 0..5 (-3..8 in the random part). Exhaustive part: from every set "
         "reachable at capacity 3 and 4 (every subset of the key universe of size <= capacity, built by inserting its "
         "elements in ascending and in descending order) every sequence of <= 2 further calls (quick; <= 3 thorough) from "
         "the full call alphabet (insert/emplace/hinted insert of every key, erase of every key, every position incl. "
-        "end and one past, every index pair, clear, swap, extract, replace, range insert, assign, erase_if), followed by "
-        "every lookup for every key; all histories of depth <= 4 (quick; 5 thorough) from the empty set over insert/"
-        "erase-key/clear/swap; seeded random histories up to length 14 at capacity 8; flat_multiset construction from "
-        "every sequence of length <= 4 over 0..3 plus random longer ones. non-trivial = distinct case line whose "
-        "history reaches a non-empty set")
+        "end and one past, every index pair, clear, swap, copy assignment, extract, replace, range insert, assignment "
+        "from a container / a random-access range / a forward-iterator range / sorted_unique container and iterator "
+        "pair, erase_if), followed by every lookup for every key, a walk through every iterator flavour and a "
+        "key_comp/value_comp table; all histories of depth <= 4 (quick; 5 thorough) from the empty set over insert/"
+        "erase-key/clear/swap; seeded random histories up to length 14 at capacity 1, 2, 5, 8; flat_multiset "
+        "construction from every sequence of length <= 4 over 0..3 plus random longer ones. non-trivial = distinct "
+        "case line whose history reaches a non-empty set")
 
 TRUSTED_BASE = ["reference leg: libstdc++ 12 std::set / std::multiset with the same comparator, bounded by the capacity "
                 "in the harness (a new key into a full set: failure reported, set unchanged)"]
@@ -26,6 +30,8 @@ ASSUMPTIONS = ["keys are int; the comparator is a strict weak order", "LP64"]
 KEYS = list(range(6))
 CMPS = ["less", "greater", "tless", "half"]
 FAMS = ["ss", "fsv", "fip"]
+TRACKED = ["sst", "fst"]   # the same containers over the tracked key type
+STATIC = ("ss", "sst")
 
 
 def lst(ks):
@@ -53,7 +59,12 @@ def alphabet(fam, cap, full=True):
     ops.append("ir " + lst([5, 3, 2, 0]))
     ops.append("as " + lst([3, 1, 3]))
     ops.append("as " + lst([0, 5, 2, 4][:cap]))
-    if fam != "ss":
+    ops.append("asi " + lst([4, 1, 4]))
+    ops.append("asi " + lst([5, 3, 2, 0, 1]))   # more distinct keys than any exhaustive capacity
+    ops.append("cp")
+    if fam not in STATIC:
+        ops.append("asui " + lst([0, 2, 4][:cap]))
+        ops.append("asui " + lst([1, 2, 3, 4, 5]))
         for k in (1, 4):
             ops.append(f"ih 0 {k}")
             ops.append(f"ih {min(cap, 2)} {k}")
@@ -112,8 +123,31 @@ def gen(tier, rng):
                             if not quick and size >= cap - 1 and cmp in ("less", "half"):
                                 for seq in itertools.product(small, repeat=3):
                                     out.append(f"{head} " + " ".join(seq))
+    # --- 2b. the tracked element type: from every reachable set every single call (and a sample of the pairs)
+    for fam in TRACKED:
+        for cmp in CMPS:
+            for cap in (3, 4):
+                if quick and cap == 4 and cmp != "less":
+                    continue
+                alpha = alphabet(fam, cap)
+                frac = 0.01 if quick else 1.0
+                for size in range(0, cap + 1):
+                    for sub in itertools.combinations(KEYS, size):
+                        asc = " ".join(f"i {k}" for k in sub)
+                        desc = " ".join(f"i {k}" for k in reversed(sub))
+                        for pi, pre in enumerate([asc] if size < 2 else [asc, desc]):
+                            head = f"{fam}_{cmp} {cap} {pre}".rstrip()
+                            out.append(head)
+                            for o1 in alpha:
+                                out.append(f"{head} {o1}")
+                            if pi != 0:
+                                continue
+                            for o1 in alpha:
+                                for o2 in alpha:
+                                    if frac >= 1.0 or rng.random() < frac:
+                                        out.append(f"{head} {o1} {o2}")
     # --- 3. all histories from the empty set over the core alphabet
-    for fam in FAMS:
+    for fam in FAMS + TRACKED:
         for cmp in CMPS:
             if quick and not (fam == "ss" or cmp == "less"):
                 continue
@@ -125,13 +159,16 @@ def gen(tier, rng):
             for d in range(1, maxd + 1):
                 for seq in itertools.product(small, repeat=d):
                     out.append(f"{fam}_{cmp} {cap} " + " ".join(seq))
-    # --- 4. seeded random longer histories, capacities 1 and 8
-    for fam in FAMS:
+    # --- 4. seeded random longer histories, capacities 1, 2, 5 and 8, keys -3..8
+    for fam in FAMS + TRACKED:
         for cmp in CMPS:
-            for cap in (1, 8):
+            for cap in (1, 2, 5, 8):
                 alpha = alphabet(fam, cap)
+                for k in list(range(-3, 0)) + [6, 7, 8]:
+                    alpha += [f"i {k}", f"ek {k}", f"e {k}"]
+                alpha += ["asi " + lst([8, -1, 3, -1, 0, 7, 2, 6, 5, -3]), "ir " + lst([7, -2, 7, 1, 6])]
                 ins = [a for a in alpha if a.startswith(("i ", "e ", "ih "))]
-                for _ in range(150 if quick else 6000):
+                for _ in range(100 if quick else 4000):
                     n = rng.randint(3, 14)
                     seq = []
                     for _ in range(n):
